@@ -31,6 +31,14 @@ def mats(n, symm):
     return [[], [(0, 0)], [c for c in allc if (c[0] + c[1]) % 2 == 0], allc[::-1][:3][::-1] + ([(n - 1, 0)] if not symm else [])]
 
 
+def _near(q, k):
+    return 1.0 + k / 4 + q * 2.0 ** -30
+
+
+def _tiny(q, k):
+    return (q + 1) * (k + 1) * 2.0 ** -40
+
+
 def units(tier):
     th = tier == "thorough"
     for perm in range(24):
@@ -144,7 +152,12 @@ def run(unit, R, tier, only=None):
             for q, nm in enumerate(names):
                 b = build.bins_df(bins)
                 b["cov"] = [10.0 * (q + 1) + k for k in range(n)]
-                bdict[nm] = b[order[per_cell]]       # the extra column at the end, first, or between the coordinate columns
+                b = b[order[per_cell]].copy()        # the extra column at the end, first, or between the coordinate columns
+                # two more per-cell columns whose values are NEARLY the same in every cell (relative difference 1e-9; magnitudes 1e-12):
+                # 'kept per cell' means the exact values given for that cell
+                b["w"] = [_near(q, k) for k in range(n)]
+                b["tiny"] = [_tiny(q, k) for k in range(n)]
+                bdict[nm] = b
             barg = bdict
         else:
             barg = build.bins_df(bins)
@@ -206,6 +219,9 @@ def run(unit, R, tier, only=None):
                     elif per_cell:
                         if "cov" not in bt.columns or bt["cov"].tolist() != [10.0 * (q + 1) + k for k in range(n)]:
                             R.mismatch("per-cell-bin-column-not-kept-per-cell", ci, f"{bt['cov'].tolist() if 'cov' in bt.columns else 'missing'}")
+                        for col, fn in (("w", _near), ("tiny", _tiny)):
+                            if col not in bt.columns or bt[col].tolist() != [fn(q, k) for k in range(n)]:
+                                R.mismatch("per-cell-bin-column-not-kept-per-cell:nearly-equal-values", ci, f"{col}: {bt[col].tolist() if col in bt.columns else 'missing'} want {[fn(q, k) for k in range(n)]}")
                     Mx = np.zeros((n, n))
                     for (i, j), v in want.items():
                         Mx[i, j] = v
